@@ -329,7 +329,8 @@ def quit_histories(path, E, rng, tier, work):
             plans.append([g1, rng.choice(later), 1])
     if tier == 'quick' and len(plans) > 40:
         plans = rng.sample(plans, 40)
-    for plan in plans:
+    for pi_, plan in enumerate(plans):
+        with_limit = (pi_ % 2 == 1)
         fn = os.path.join(work, 'q.sav')
         for f in (fn, fn[:-4] + '.omn'):
             if os.path.exists(f):
@@ -347,7 +348,9 @@ def quit_histories(path, E, rng, tier, work):
                 cfg, info = session.load_save(fn)
                 sp = saved_prob(fn)
                 pcfg = ptq.load_pcfg(path, save_file=fn)
-                r = session.run_session(pcfg, cfg, fn, load=True, quit_at_guess=g)
+                # some resumed sessions run under a --limit that is never reached: the bookkeeping of the restored level must
+                # not depend on it
+                r = session.run_session(pcfg, cfg, fn, load=True, quit_at_guess=g, limit=(10 ** 6 if with_limit else None))
             # a quit "happened" when it stopped the run (the state was saved); a request that arrives after the last
             # guess stops nothing: the run completes, nothing is saved, the history of quit/resume cycles is over
             took = bool(r['quit'] and r['saves'])
@@ -357,7 +360,7 @@ def quit_histories(path, E, rng, tier, work):
                 break
         if sess[-1]['q']:
             sess.append(resume_to_end(path, fn))
-        res.append((sess, {'quit_after_guesses': plan, 'via': 'CrackingSession.run, scripted keyboard thread'}))
+        res.append((sess, {'quit_after_guesses': plan, 'via': 'CrackingSession.run, scripted keyboard thread', 'resumed_with_unreached_limit': with_limit}))
     return res
 
 
